@@ -46,7 +46,7 @@ theorem steps_loadDeletedTSIDs_expected : steps_loadDeletedTSIDs = (["if err := 
 
 theorem steps_seriesCardinality_expected : steps_seriesCardinality = (["if !idx.isOpen { if err := idx.Open(); err != nil { return 0, err } }", "if condition == nil { return idx.seriesCardinality(name) }", "tsids, err := idx.searchTSIDs(name, condition, tr)", "if err != nil { return 0, err }", "return uint64(len(tsids)), nil"] : List String) := by rfl
 
-theorem steps_purge_expected : steps_purge = (["iBuilder.mu.Lock()", "defer iBuilder.mu.Unlock()", "e := errors.New(\"idx is nil or not be *MergeSetIndex\")", "if idx, ok := iBuilder.GetPrimaryIndex().(*MergeSetIndex); ok { deleteMergeSet := idx.DeleteMergeSet() if deleteMergeSet == nil { logger.GetLogger().Info(\"new db and didn't execute drop, no need to delete\") return nil } deleteMergeSet.tb.SetLabelForDeletePart() delTsids := idx.GetDeletedTSIDs() if delTsids == nil || delTsids.Len() <= 0 { return nil } if e = idx.tb.RemoveItemsByDelTsidsFromParts(delTsids); e == nil { if e = idx.ClearCache(); e == nil { deleteMergeSet.tb.RemoveDeletedPart() } } }", "return e"] : List String) := by rfl
+theorem steps_purge_expected : steps_purge = (["return DropSeriesOfPolicy([]*IndexBuilder{iBuilder})"] : List String) := by rfl
 
 theorem steps_setDelMergeSet_expected : steps_setDelMergeSet = (["err := errors.New(\"delMergeSet must be *tsi.MergeSetIndex\")", "if delMergeSet, ok := dbPT.GetDelIndexBuilderByRp(rp).GetPrimaryIndex().(*tsi.MergeSetIndex); ok { if err = delMergeSet.LoadDeletedTSIDs(); err != nil { return err } for _, v := range dbPT.indexBuilder { if curMerge, ok := v.GetPrimaryIndex().(*tsi.MergeSetIndex); ok { if curMerge.RpName() == rp { curMerge.SetDeleteMergeSet(delMergeSet) } } else { return errors.New(\"curMerge must be *tsi.MergeSetIndex\") } } }", "return err"] : List String) := by rfl
 
@@ -134,5 +134,13 @@ theorem steps_deleteDataAndWalPath_expected : steps_deleteDataAndWalPath = (["lo
 theorem steps_deleteShardsAndIndexes_expected : steps_deleteShardsAndIndexes = (["dbPTInfo.mu.Lock()", "defer dbPTInfo.mu.Unlock()", "for id, shard := range dbPTInfo.shards { if err := shard.Close(); err != nil { return err } delete(dbPTInfo.shards, id) }", "for id, iBuild := range dbPTInfo.indexBuilder { if err := iBuild.Close(); err != nil { return err } delete(dbPTInfo.indexBuilder, id) }", "var errs []error", "deleteRps := make([]string, 0, len(dbPTInfo.delIndexBuilderMap))", "for rp, iBuild := range dbPTInfo.delIndexBuilderMap { if err := iBuild.Close(); err != nil { e.log.Error(\"drop series failed\", zap.Uint32(\"ptId\", dbPTInfo.id), zap.String(\"rp\", rp), zap.Error(err)) errs = append(errs, err) } else { deleteRps = append(deleteRps, rp) } }", "for _, rp := range deleteRps { delete(dbPTInfo.delIndexBuilderMap, rp) }", "if len(errs) > 0 { return errors.Join(errs...) }", "return nil"] : List String) := by rfl
 
 theorem calls_engineDeleteDatabase_expected : calls_engineDeleteDatabase = (["e.log.Info", "e.log.Info", "e.startDrop", "e.endDrop", "e.metaClient.DatabaseOption", "e.mu.RLock", "e.mu.RUnlock", "deleteDataAndWalPath", "e.mu.RUnlock", "deleteDataAndWalPath", "dbPTInfo.markOffload", "dbPTInfo.unMarkOffload", "e.mu.RUnlock", "dbPTInfo.wg.Wait", "e.deleteShardsAndIndexes", "deleteDataAndWalPath", "dbPTInfo.unMarkOffload", "e.mu.RUnlock", "dbPTInfo.node.Stop", "e.mu.RUnlock", "e.mu.Lock", "e.dropDBPTInfo", "e.mu.Unlock", "colstore.MstManagerIns().DelAll", "colstore.MstManagerIns"] : List String) := by rfl
+
+/-! ### the purge over the indexes of one policy -/
+
+theorem steps_dropSeriesOfPolicy_expected : steps_dropSeriesOfPolicy = (["ibs := append([]*IndexBuilder(nil), iBuilders...)", "sort.Slice(ibs, func(i, j int) bool { return ibs[i].GetIndexID() < ibs[j].GetIndexID() })", "idxs := make([]*MergeSetIndex, 0, len(ibs))", "for _, iBuilder := range ibs { iBuilder.mu.Lock() defer iBuilder.mu.Unlock() idx, ok := iBuilder.GetPrimaryIndex().(*MergeSetIndex) if !ok { return errors.New(\"idx is nil or not be *MergeSetIndex\") } idxs = append(idxs, idx) }", "var deleteMergeSet *MergeSetIndex", "var withDeleted *MergeSetIndex", "for _, idx := range idxs { if d := idx.DeleteMergeSet(); d != nil { if deleteMergeSet != nil && deleteMergeSet != d { return errors.New(\"the indexes of one retention policy must share one deleted-tsid index\") } deleteMergeSet, withDeleted = d, idx } }", "if deleteMergeSet == nil { logger.GetLogger().Info(\"new db and didn't execute drop, no need to delete\") return nil }", "deleteMergeSet.tb.SetLabelForDeletePart()", "delTsids := withDeleted.GetDeletedTSIDs()", "if delTsids == nil || delTsids.Len() <= 0 { return nil }", "var errs []error", "for _, idx := range idxs { e := idx.tb.RemoveItemsByDelTsidsFromParts(delTsids) if e == nil { e = idx.ClearCache() } if e != nil { errs = append(errs, e) } }", "if len(errs) > 0 { return errors.Join(errs...) }", "deleteMergeSet.tb.RemoveDeletedPart()", "return nil"] : List String) := by rfl
+
+theorem policyPurgeForgetsOnlyWhenAllOk_expected : policyPurgeForgetsOnlyWhenAllOk = (true : Bool) := by rfl
+
+theorem steps_engineDropSeries_expected : steps_engineDropSeries = (["e.log.Info(\"start drop series task\")", "var errs []error", "e.mu.Lock()", "defer e.mu.Unlock()", "for db, dbptInfoMap := range e.DBPartitions { for pt, dbptInfo := range dbptInfoMap { byRp := make(map[string][]*tsi.IndexBuilder) for indexId, ib := range dbptInfo.indexBuilder { if DelIndexBuilderId == indexId { continue } byRp[ib.RPName()] = append(byRp[ib.RPName()], ib) } for rp, ibs := range byRp { err := tsi.DropSeriesOfPolicy(ibs) if err != nil { e.log.Error(\"drop series failed\", zap.Uint32(\"pt\", pt), zap.String(\"db\", db), zap.String(\"rp\", rp), zap.Error(err)) errs = append(errs, err) } } } }", "if len(errs) > 0 { err := errors.Join(errs...) return err }", "e.log.Info(\"end drop series task\")", "return nil"] : List String) := by rfl
 
 end OG.C13.Facts
